@@ -772,7 +772,6 @@ func convsBack(v ssa.Value) ([]*ssa.Convert, ssa.Value) {
 	return cs, v
 }
 
-
 // valueOf returns the instruction as a value (nil if it is not one).
 func valueOf(in ssa.Instruction) ssa.Value {
 	v, _ := in.(ssa.Value)
